@@ -25,6 +25,11 @@ REFUSALS = {
     'rm_directory:is-file': ('plain', 'rm_directory', [], dict(iso_path='/FOO.;1')),
     'rm_directory:missing': ('plain', 'rm_directory', [], dict(iso_path='/NOPE')),
     'rm_directory:root': ('plain', 'rm_directory', [], dict(iso_path='/')),
+    'rm_directory:nonempty': ('plain+sub', 'rm_directory', [], dict(iso_path='/DIR1')),
+    'rm_directory:joliet-is-file': ('joliet', 'rm_directory', [], dict(joliet_path='/foo')),
+    'rm_directory:joliet-nonempty': ('joliet+sub', 'rm_directory', [], dict(joliet_path='/dir1')),
+    'rm_directory:udf-is-file': ('udf', 'rm_directory', [], dict(udf_path='/foo')),
+    'rm_directory:udf-nonempty': ('udf+sub', 'rm_directory', [], dict(udf_path='/dir1')),
     'add_hard_link:missing-old': ('plain', 'add_hard_link', [], dict(iso_old_path='/NOPE.;1', iso_new_path='/LINK.;1')),
     'add_hard_link:bad-new': ('plain', 'add_hard_link', [], dict(iso_old_path='/FOO.;1', iso_new_path='/bad-link.;1')),
     'add_hard_link:duplicate-new': ('plain', 'add_hard_link', [], dict(iso_old_path='/FOO.;1', iso_new_path='/FOO.;1')),
